@@ -324,6 +324,11 @@ pub trait Writer {
         length: u64,
         format: Format,
     ) -> Result<()> {
+        // Lengths from 0xffff_fff0 are reserved in the 32-bit format
+        // (0xffff_ffff is the 64-bit escape), so they cannot be represented.
+        if format == Format::Dwarf32 && length >= 0xffff_fff0 {
+            return Err(Error::ValueTooLarge);
+        }
         self.write_udata_at(offset.0, length, format.word_size())
     }
 }
